@@ -188,7 +188,7 @@ def build(cpu):
     F.append(Form("LBI r,0", "LBI {0},0", [R4()], lambda pc, v: bytes([v[0] << 4 | 0x0F])))
     if cpu == 410:
         # d = 1..8 do not exist on the COP410L: 8, 7 (and 16, 17) must be rejected
-        F.append(Form("LBI r,d", "LBI {0},{1}", [R4(), Int(9, 15)], lambda pc, v: bytes([v[0] << 4 | (v[1] - 1)])))
+        F.append(Form("LBI r,d", "LBI {0},{1}", [R4(), Int(9, 15, holes=(0,))], lambda pc, v: bytes([v[0] << 4 | (v[1] - 1)])))      # 0: the form above
         F.append(Form("XAD 3,15", "XAD 3,15", [], _fix([0x23, 0xBF])))
     else:
         # COP444L: eight data registers, the two-byte forms have a 3-bit r there; r = 4..7 is not generated
